@@ -97,11 +97,12 @@ def fam(name, n, size, opt="", **kw):
 
 PROPS = {
     "C18": {
-        "claim": "Theorems about the Dijkstra model (replaying any legal pop order, int32 wrap included): predecessor chains are real paths for all weights; exact distances and tight paths for non-negative weights without int32 overflow; unreachable chains never reach the source. Tied to the code by replaying the hooked pop order of the real Dijkstra on generated digraphs and comparing distances, predecessors and EdgeToPath, and by checking the real outputs against an independent Bellman-Ford.",
+        "claim": "Theorems about the Dijkstra model (replaying any legal pop order, int32 wrap included): predecessor chains are real paths for all weights; exact distances and tight paths for non-negative weights without int32 overflow; unreachable chains never reach the source; corollaries (C18b): schedule independence (any two legal pop orders report the same distances), source at 0 without predecessor, non-negative distances, triangle inequality at termination, every predecessor is joined by an existing edge that accounts for the distance. Tied to the code by replaying the hooked pop order of the real Dijkstra on generated digraphs and comparing distances, predecessors and EdgeToPath, and by checking the real outputs against an independent Bellman-Ford.",
         "note": "Proved for every legal pop order (superset of what container/heap can produce); container/heap itself is modelled, not verified. Overflow (weights >= 2^31) is excluded by hypothesis and is a listed known finding.",
         "theorems": ["ArgMapper.C18.consts_tie", "ArgMapper.C18.tree", "ArgMapper.C18.dist_exact", "ArgMapper.C18.unreachable",
-                     "ArgMapper.C18.greedy_legal"],
-        "modules": ["ArgMapper.Props.C18"],
+                     "ArgMapper.C18.greedy_legal", "ArgMapper.C18.order_independent", "ArgMapper.C18.source_zero",
+                     "ArgMapper.C18.dist_nonneg", "ArgMapper.C18.triangle", "ArgMapper.C18.pred_edge"],
+        "modules": ["ArgMapper.Props.C18", "ArgMapper.Props.C18b"],
         "rule": "dij: >=2 edges and >=2 vertices reachable from the source.",
         "runs": {
             "quick": [fam("dij", 800, 7), fam("dij", 300, 7, "neg"), fam("dij", 100, 5, "huge"), fam("dij", 19683, 3, "exhaustive"), fam("dij", 48, 7, "conc")],
@@ -112,8 +113,10 @@ PROPS = {
         "claim": "Refinement theorem: the heap-of-maps model of graph.go (aliasing between a graph and its reversed view, fresh maps on Copy) run on any history respecting AddEdge's precondition is observationally equal, on every live handle, to the plain adjacency specification. Tied to the code by differential histories over several live handles, comparing raw maps and the public observers after every few operations.",
         "note": "Go maps are modelled as association lists; panics on AddEdge with an absent endpoint are compared model-vs-code but outside the specification.",
         "theorems": ["ArgMapper.C19.spec_wf", "ArgMapper.C19.refines", "ArgMapper.C19.mirror", "ArgMapper.C19.reverse_reverse",
-                     "ArgMapper.C19.copy_independent", "ArgMapper.C19.counterexample_reverse_nil"],
-        "modules": ["ArgMapper.Props.C19"],
+                     "ArgMapper.C19.copy_independent", "ArgMapper.C19.counterexample_reverse_nil",
+                     "ArgMapper.C19.remove_removes_incident", "ArgMapper.C19.remove_keeps_others", "ArgMapper.C19.reverse_is_mirror",
+                     "ArgMapper.C19.copy_starts_equal", "ArgMapper.C19.copy_independent_impl", "ArgMapper.C19.overwrite_keeps_edges"],
+        "modules": ["ArgMapper.Props.C19", "ArgMapper.Props.C19b"],
         "facts": {"fixedReverse": "true"},
         "rule": "gops: >=4 operations and >=1 observation of all live handles.",
         "runs": {
